@@ -48,6 +48,9 @@ def trace_part(pid, uid, k, want, tier, verdict, extra_prefixes=()):
     bad = [t for t in traces if t["hdr"] is None]
     if bad:
         raise Machinery(f"recorder failed on {len(bad)} runs, e.g. {bad[0].get('err')} ({bad[0].get('did')})")
+    recerr = Counter(e["what"] for t in traces for e in t["ev"] if e["e"] == "RecErr")
+    if recerr:
+        raise Machinery(f"the recorder failed to observe some events: {dict(recerr)}")
     per, stats = lifecycle.validate(traces, f"{pid}-{os.getpid()}")
     prefixes = (pid,) + tuple(extra_prefixes)
     nontrivial = set()
